@@ -183,6 +183,9 @@ def plan():
     def steady(cfg, w, n, tiers):
         return fdh(f"c11_steady_{cfg}_{w}_{n}", f"c11_steady({cfg}, {w}, {n})", ["dead verdict reachable"] if cfg == 1 and n >= 2 else [], tiers, "steady heartbeats with gaps in [a,b] stay within the threshold",
                    {"config": CFG[cfg], "window": w, "arrivals": n, "a,b": "symbolic, 1 s <= a <= b <= max_interval"})
+    def steadyh(cfg, w, n, tiers):
+        return fdh(f"c11_half_{cfg}_{w}_{n}", f"c11_steady_half({cfg}, {w}, {n})", ["sub-second steady interval"], tiers, "steady heartbeats with gaps in [a,b] off the whole-second grid (k + 0.5 s) stay within the threshold",
+                   {"config": CFG[cfg], "window": w, "arrivals": n, "a,b": "k + 0.5 s, 0.5 s <= a <= b <= max_interval"})
     def absw(cfg, compl, tiers):
         return fdh(f"{'c10' if compl else 'c11'}_abs_{cfg}", f"window_abstract({cfg}, 1000, {str(compl).lower()})", ["alive verdict reachable"] if compl else ["dead verdict reachable"], tiers,
                    "arbitrary window contents (long histories in the abstract): len 1..=1000, sum in [len*lo, len*hi], hi <= max_interval",
@@ -195,7 +198,7 @@ def plan():
         [hist(c, w, n, ("thorough",)) for c in (1, 2, 3, 4) for (w, n) in ((1, 3), (2, 4), (3, 5), (1, 4))] + [hist(0, 3, 5, ("thorough",)), hist(0, 1, 4, ("thorough",))] + \
         [absw(c, True, ("thorough",)) for c in (1, 3, 4)] + [classify(c, ("thorough",)) for c in (1, 4)]
     P["C11"] = [steady(0, 2, 3, ("quick", "thorough")), steady(4, 2, 3, ("quick", "thorough")), steady(1, 1, 2, ("quick", "thorough")), steady(0, 1, 1, ("quick", "thorough")), absw(0, False, ("quick", "thorough")), absw(4, False, ("quick", "thorough")),
-                classify(0, ("quick", "thorough")), histh(4, 2, 4, ("quick", "thorough"))] + \
+                classify(0, ("quick", "thorough")), histh(4, 2, 4, ("quick", "thorough")), steadyh(4, 2, 3, ("quick", "thorough"))] + \
         [steady(c, w, n, ("thorough",)) for c in (1, 2, 3, 4) for (w, n) in ((1, 3), (2, 4), (3, 4))] + [absw(c, False, ("thorough",)) for c in (1, 2, 3)]
     # ---------------- C05
     lib_rules = R_STATE
